@@ -159,6 +159,8 @@ def gen(rng, tier):
     for t in range(n):
         k = kinds[t % len(kinds)]
         c = {"kind": k, "short": rng.random() < 0.5, "pgen": rng.random() < 0.3}
+        if k == "clump":
+            c["clump_cfg"] = t // len(kinds)  # the k-th clump case takes the k-th threshold combination
         pool_ids = haps
         if k == "ld":
             c["from_gts"] = rng.random() < 0.6
@@ -342,10 +344,16 @@ def impl(case):
     elif k == "clump":
         from haptools.clump import clumpstr
 
-        args = ["--summstats-snps", d / "stats.txt", "--gts-snps", d / "g.vcf", "--clump-p1", "0.001", "--clump-kb", "0.05", "--clump-r2", "0.2", "--clump-id-field", "SNP", "--clump-field", "P", "--clump-chrom-field", "CHR", "--clump-pos-field", "POS", "--ld", "Pearson"]
+        # thresholds as the case fixes them: index threshold above, at and below the inclusion threshold, windows, r2, both LD modes
+        sd_ = case.get("clump_cfg", case["seed"])
+        p1, p2 = [(0.05, 0.001), (0.001, 0.01), (0.6, 0.01), (0.0001, 0.05), (0.05, 0.0001), (0.001, 1.0), (0.6, 0.6), (0.05, 0.05)][sd_ % 8]
+        kb = [0.05, 0.02, 250.0][sd_ % 3]
+        r2 = [0.2, 0.5, 0.8][(sd_ // 3) % 3]
+        ldm = ["Pearson", "Exact"][(sd_ // 2) % 2]
+        args = ["--summstats-snps", d / "stats.txt", "--gts-snps", d / "g.vcf", "--clump-p1", str(p1), "--clump-p2", str(p2), "--clump-kb", str(kb), "--clump-r2", str(r2), "--clump-id-field", "SNP", "--clump-field", "P", "--clump-chrom-field", "CHR", "--clump-pos-field", "POS", "--ld", ldm]
         res["cli_rep"] = run_cli(["clump", *args, "--out", o / "a.clump"])
         res["cli_file"] = res["cli_rep"]
-        res["api_error"] = C.guarded(lambda: clumpstr(str(d / "stats.txt"), None, str(d / "g.vcf"), None, 0.001, 0.01, "SNP", "P", "CHR", "POS", 0.05, 0.2, "Pearson", str(o / "c.clump"), SD.silent_log()))
+        res["api_error"] = C.guarded(lambda: clumpstr(str(d / "stats.txt"), None, str(d / "g.vcf"), None, p1, p2, "SNP", "P", "CHR", "POS", kb, r2, ldm, str(o / "c.clump"), SD.silent_log()))
         res["out"] = [text(o / f) if (o / f).exists() else None for f in ("a.clump", "a.clump", "c.clump")]
     elif k == "simgenotype":
         import haptools.sim_genotype as sg
